@@ -261,7 +261,12 @@ class ExactScopes:
 
     def is_exact(self, e: Expr) -> bool:
         """Whether *e*'s active scope rounds exactly, so it has no rounding yet."""
-        scope = self.ctx_use.find_scope_from_use(e)   # type: ignore[arg-type]
+        try:
+            scope = self.ctx_use.find_scope_from_use(e)   # type: ignore[arg-type]
+        except KeyError:
+            # an operation inside a `with` statement's context expression
+            # builds the context; it is evaluated under no rounding scope
+            return False
         ctx = scope.ctx if isinstance(scope.ctx, Context) else self.outer
         return ctx is REAL
 
